@@ -378,7 +378,11 @@ func runC11(c *runCfg) error {
 				emitSession(c, vc)
 			}
 		}
-		// no certificates: 'N', plaintext continues on the same connection
+		// no certificates: 'N', plaintext continues on the same connection — also when a TLS configuration exists
+		// but holds no certificate (empty configuration, empty non-nil list, pre-sized empty list)
+		ecfg := cfg
+		ecfg.tlsEmpty = 1 + i%3
+		emit("no_certs_empty_config", ecfg, sslRequest(), nil, msgs, "")
 		emit("no_certs", cfg, sslRequest(), nil, msgs, "")
 		emit("no_certs_ssl_again", cfg, sslRequest(), nil, append([][]byte{sslRequest()}, msgs...), "")
 		emit("no_certs_cancel", cfg, sslRequest(), nil, append([][]byte{cancelRequest()}, msgs...), "")
